@@ -163,8 +163,15 @@ func C12(r *explore.Run) {
 			c.Violation(sig, s, d)
 		}
 		// the result must not depend on what was split before: repeat after calls that end in unusual lexer states
-		before := splitObs(s)
+		// (inputs of at most 6 bytes - every quick-tier byte string; longer inputs are split once)
+		before := ""
+		if len(s) <= 6 {
+			before = splitObs(s)
+		}
 		for _, poison := range splitPoisons {
+			if len(s) > 6 {
+				break
+			}
 			explore.Try(func() { memefish.SplitRawStatements("p.sql", poison) })
 			if after := splitObs(s); after != before {
 				c.Violation("C12/depends-on-previous-call", fmt.Sprintf("%q after %q", s, poison), fmt.Sprintf("SplitRawStatements(%q) gives %s after splitting %q, but %s before", s, after, poison, before))
